@@ -1,7 +1,77 @@
 package main
 
-// applyProbes inserts the few observation points the public API does not
-// offer. Each probe is anchored by function name; a missing anchor is an
-// infrastructure failure (exit 2), never a verdict.
+import (
+	"go/ast"
+	"go/parser"
+	"go/token"
+	"path/filepath"
+
+	"golang.org/x/tools/go/ast/astutil"
+)
+
+// probe describes one inserted observation point: a call placed at the entry
+// of a function identified by file, receiver type and name.
+type probe struct {
+	file string // relative to the repository root
+	recv string // receiver type name without '*', "" for plain functions
+	fn   string
+	call string // Go expression, may use the function's parameters / receiver and the zzsimrt package
+}
+
+// The properties that need an observation the public API does not offer:
+// C18 counts live in-memory swamp objects per name.
+var probes = []probe{
+	{"app/core/hydra/swamp/swamp.go", "", "New", `zzsimrt.ProbeAdd("swamp_live:"+name.Get(), 1)`},
+	{"app/core/hydra/swamp/swamp.go", "swamp", "sendClosedEvent", `zzsimrt.ProbeAdd("swamp_live:"+s.name.Get(), -1)`},
+}
+
+// applyProbes inserts the probes. A missing anchor is an infrastructure
+// failure (exit 2), never a verdict.
 func applyProbes(root string) {
+	byFile := map[string][]probe{}
+	for _, p := range probes {
+		byFile[p.file] = append(byFile[p.file], p)
+	}
+	for rel, ps := range byFile {
+		path := filepath.Join(root, rel)
+		fset := token.NewFileSet()
+		f, err := parser.ParseFile(fset, path, nil, parser.ParseComments)
+		if err != nil {
+			die("probe: parse %s: %v", rel, err)
+		}
+		for _, p := range ps {
+			found := false
+			for _, d := range f.Decls {
+				fd, ok := d.(*ast.FuncDecl)
+				if !ok || fd.Name.Name != p.fn || fd.Body == nil {
+					continue
+				}
+				recv := ""
+				if fd.Recv != nil && len(fd.Recv.List) == 1 {
+					t := fd.Recv.List[0].Type
+					if st, ok := t.(*ast.StarExpr); ok {
+						t = st.X
+					}
+					if id, ok := t.(*ast.Ident); ok {
+						recv = id.Name
+					}
+				}
+				if recv != p.recv {
+					continue
+				}
+				e, err := parser.ParseExpr(p.call)
+				if err != nil {
+					die("probe: bad call %q: %v", p.call, err)
+				}
+				fd.Body.List = append([]ast.Stmt{&ast.ExprStmt{X: e}}, fd.Body.List...)
+				found = true
+				cnt.probes++
+			}
+			if !found {
+				die("probe anchor not found: %s (%s).%s", rel, p.recv, p.fn)
+			}
+		}
+		astutil.AddNamedImport(fset, f, "zzsimrt", zz+"simrt")
+		writeFile(fset, f, path)
+	}
 }
